@@ -17,7 +17,8 @@ type c20Case struct {
 	Attrs []bop  `json:"attrs"`
 	Sign  *bop   `json:"sign,omitempty"`
 	FP    bool   `json:"fp"`
-	Op    string `json:"op,omitempty"` // failing operation (informational)
+	Warm  string `json:"warm,omitempty"` // "larger" (default): the Message was used for a message 64 bytes larger; "same": only for this very message
+	Op    string `json:"op,omitempty"`   // failing operation (informational)
 }
 
 // ptrSetter returns a pointer setter for an op, so that passing it through the
@@ -114,6 +115,10 @@ func runC20(c c20Case) (c20Case, error) {
 	if c.FP || c.Sign != nil {
 		// keep integrity/fingerprint last in the warm-up message too
 		big = append(append([]stun.Setter(nil), &stun.RawAttribute{Type: 0x7F10, Value: make([]byte, 64)}), setters...)
+	}
+	if c.Warm == "same" {
+		// "used for a message at least as large" includes: used for this very message and nothing larger
+		big = setters
 	}
 	m := new(stun.Message)
 	if err := m.Build(big...); err != nil {
@@ -275,6 +280,7 @@ func genC20(rt *rapid.T) (c20Case, bool) {
 		c.Sign = &s
 	}
 	c.FP = rapid.Bool().Draw(rt, "fp")
+	c.Warm = rapid.SampledFrom([]string{"larger", "same"}).Draw(rt, "warm")
 	nt := len(c.Attrs) >= 3 && (v6 || c.Sign != nil)
 	if c.Sign != nil && len(c.Sign.key()) > 64 {
 		nt = true
@@ -289,7 +295,7 @@ func TestC20_Allocs(t *testing.T) {
 	}
 	rec := evid.For("C20")
 	rec.Note("rule", "generated well-formed messages: 0..16 attributes drawn from every supported setter (all address types incl. AddToAs, text up to the limits, ERROR-CODE, default-reason codes, UNKNOWN-ATTRIBUTES <= 20 types, raw) "+
-		"optionally followed by MESSAGE-INTEGRITY (keys 0..200 bytes incl. 63/64/65) and FINGERPRINT. The Message is first used for a strictly larger message of the same shape (+64 bytes). Oracle: testing.AllocsPerRun(5, op) == 0 for "+
+		"optionally followed by MESSAGE-INTEGRITY (keys 0..200 bytes incl. 63/64/65) and FINGERPRINT. The Message is first used either for a strictly larger message of the same shape (+64 bytes) or for this very message only (\"at least as large\": no spare capacity beyond what the allocator rounds up to). Oracle: testing.AllocsPerRun(5, op) == 0 for "+
 		"Build(pointer setters), Decode(data,m), Write, Message.Decode, CloneTo, Get/Contains/Attributes.Get/ForEach for every attribute type present, every typed getter whose attribute is present and valid (into a reused destination), "+
 		"MessageIntegrity.Check and Fingerprint.Check; plus destination reuse: an address getter (all seven forms) or the UNKNOWN-ATTRIBUTES getter whose destination has once held the larger form (IPv6 / longer list) "+
 		"must serve any generated alternation of smaller and larger values with zero allocations. One goroutine, non-race build. Non-trivial = >= 3 attributes including an IPv6 address or an integrity attribute, or key > 64 bytes; distinct by (setter kinds, size classes, key class).")
